@@ -5,6 +5,7 @@ import Iota.Gen.Curl
 import Iota.Gen.Bech32
 import Iota.Gen.Ed
 import Iota.Gen.Merkle
+import Iota.Gen.Bip32Path
 import Iota.Driver.C15
 
 /-!
@@ -81,7 +82,39 @@ def merkleGen (H : List UInt8 → List UInt8) (leaves : List (Except Nat (List U
   | some (r, none) => s!"ok {hexOfBytes (bytesOfBv r)}"
   | some (_, some e) => s!"err {e}"
 
+/-- `keyReg.FindStringSubmatch` for the regexp `(\d+)([H']?)`, leftmost-first: nothing without a digit; otherwise the
+match starts at the first digit, takes all digits that follow and one `H` or `'` if it comes next -/
+def findImpl (key : List (BitVec 8)) : List (List (BitVec 8)) :=
+  let isD := fun (c : BitVec 8) => decide (48 ≤ c.toNat ∧ c.toNat ≤ 57)
+  let rest := key.dropWhile (fun c => !isD c)
+  if rest.isEmpty then [] else
+  let ds := rest.takeWhile isD
+  let mk := match rest.dropWhile isD with
+    | c :: _ => if c == 72#8 || c == 39#8 then [c] else []
+    | [] => []
+  [ds ++ mk, ds, mk]
+/-- `strconv.ParseUint(s, 10, bits)`: syntax error for an empty string or a non-digit, range error (with the maximum value)
+beyond `bits` bits; only base 10 is implemented (other bases: a syntax error, never requested by the generated code) -/
+def parseUintImpl (s : List (BitVec 8)) (base bits : BitVec 64) : BitVec 64 × Option String :=
+  if base != 10#64 || s.isEmpty || !s.all (fun c => decide (48 ≤ c.toNat ∧ c.toNat ≤ 57)) then (0#64, some "ErrSyntax") else
+  let v := s.foldl (fun acc c => acc * 10 + (c.toNat - 48)) 0
+  if v < 2 ^ bits.toNat then (BitVec.ofNat 64 v, none) else (BitVec.ofNat 64 (2 ^ bits.toNat - 1), some "ErrRange")
+
 def ops : List (String × Handler) := [
+  -- pkg/bip32path: the generated ParsePath / Path.String with the two library functions above
+  ("gen.path.parse", fun
+    | [h] => match bytesOfHex h with
+      | some s => match Gen.Bip32Path.code.ParsePath findImpl parseUintImpl (bvOfBytes s) with
+        | none => "panic"
+        | some (p, none) => s!"ok {csvOfNats (p.map BitVec.toNat)}"
+        | some (_, some e) => s!"err {e}"
+      | none => badOp
+    | _ => badOp),
+  ("gen.path.print", fun
+    | [c] => match natsOfCsv c with
+      | some p => hexOfBytes (bytesOfBv (Gen.Bip32Path.code.Path_String (p.map (BitVec.ofNat 32))))
+      | none => badOp
+    | _ => badOp),
   -- pkg/merkle: the four ops of the C15 stream, answered by the generated code (mirrored by the harness)
   ("gen.merkle.hash", fun
     | [hn, ls] => match C15.hashByName hn, (if ls == "-" then some [] else (ls.splitOn ";").mapM C15.parseLeaf) with
